@@ -230,6 +230,23 @@ func (g *PredGen) Atom(depth int) *Node {
 				}
 				items = out
 			}
+			if r.Chance(1, 4) {
+				// an item that depends on the row (the other field, or a function of a field)
+				var dep *Node
+				switch r.Intn(3) {
+				case 0:
+					if f.K == KKey {
+						dep = Value()
+					} else {
+						dep = Key()
+					}
+				case 1:
+					dep = Call("lower", Value())
+				default:
+					dep = Call("upper", Key())
+				}
+				items[r.Intn(len(items))] = dep
+			}
 			return In(f, items...)
 		case 7: // numeric IN
 			x := g.Num(depth)
